@@ -97,11 +97,24 @@ def run_unit(name, canary=False, timeout=600):
     fails = []
     undecided = []
     for e in errors:
-        sp_primary = [s for s in e["spans"] if s.get("is_primary")] or e["spans"]
+        ours = [s for s in e["spans"] if os.path.basename(s.get("file_name", "")) == os.path.basename(rs)]
+        sp_primary = [s for s in ours if s.get("is_primary")] or ours
+        # a span inside a macro expansion (debug_assert!) points into std: follow the expansion back to our file
+        if not sp_primary:
+            for s0 in e["spans"]:
+                ex = s0.get("expansion")
+                while ex:
+                    sp = ex.get("span", {})
+                    if os.path.basename(sp.get("file_name", "")) == os.path.basename(rs):
+                        sp_primary = [sp]
+                        break
+                    ex = sp.get("expansion")
+                if sp_primary:
+                    break
         line = sp_primary[0]["line_start"] if sp_primary else 0
         fn = _enclosing_fn(lines, line) if line else "?"
         clause = ""
-        for s in e["spans"]:
+        for s in (ours or sp_primary):
             lab = s.get("label") or ""
             if "failed" in lab or s.get("is_primary"):
                 t = s.get("text") or []
